@@ -265,13 +265,13 @@ def run(ctx):
                               site, nm, "+ %d <" % (-k) if k < 0 else ("<=" if k == 1 else "< (k=%d)" % k), k,
                               "a line whose content is %d byte(s) long is dropped" % (-k) if k < 0 else "a line with no content is recorded"),
                           body.span_of(cbb))
-            shapes.append(sorted((body.local_name(x[1]) if isinstance(x, tuple) and x[0] == "havoc" else "?", k) for (x, k, _) in atoms))
+            shapes.append({(x[1] if isinstance(x, tuple) and x[0] == "havoc" else None): k for (x, k, _) in atoms})
         if len(shapes) == 2:
-            # sibling agreement on the cursor test (first non-blank cursor vs end)
-            a = dict(shapes[0]).get("tstart")
-            b = dict(shapes[1]).get("tstart")
-            ctx.check(a == b and a is not None, "D3-SIBLING", PFB, "cursor-test", "both sites test the non-blank cursor alike",
-                      "the in-loop and end-of-input sites test the non-blank cursor differently (k=%s vs k=%s)" % (a, b), fn_span(body))
+            # sibling agreement: the variable tested at both sites is the first-non-blank cursor; both sites must test it alike
+            common = [l for l in shapes[0] if l is not None and l in shapes[1]]
+            ok_s = bool(common) and all(shapes[0][l] == shapes[1][l] for l in common)
+            ctx.check(ok_s, "D3-SIBLING", PFB, "cursor-test", "both sites test the non-blank cursor alike",
+                      "the in-loop and end-of-input sites test the non-blank cursor differently (%s vs %s)" % (shapes[0], shapes[1]), fn_span(body))
         # D2 producer
         pushes = {}
         for p in paths:
